@@ -559,6 +559,23 @@ where
             if let Some(bp) = &rec.bproof { ser_obs(&format!("bproof{}", t), bp, out); }
             if let Some(lp) = &rec.lcproof { ser_obs(&format!("lcproof{}", t), lp, out); }
         }
+        // batch verification with a deserialized verifier key (prepared elements are rebuilt on load)
+        if let Some(rec) = recs.iter().find(|r| r.kind == "batch" && r.bproof.is_some()) {
+            use ark_serialize::{Compress, Validate};
+            for (tag, compress) in [("c", Compress::Yes), ("u", Compress::No)] {
+                let mut b = vec![]; vk.serialize_with_mode(&mut b, compress).unwrap();
+                if let Ok(vk2) = VK::<A>::deserialize_with_mode(&b[..], compress, Validate::Yes) {
+                    let qs = build_qs::<A>(&rec.qs, &labels, &pts);
+                    let mut evals: Evaluations<Pt<A>, A::F> = Evaluations::new();
+                    for (i, _zl, pj) in &rec.qs { evals.insert((plabel(labels[*i]), pts[*pj].clone()), polys[*i].evaluate(&pts[*pj])); }
+                    let mut s1 = rec.vsponge_before.clone();
+                    let mut r1 = CountingRng::new(rec.check_seed);
+                    let bp = rec.bproof.as_ref().unwrap();
+                    let d = guard_any(|| A::PC::batch_check(&vk2, rec.vperm.iter().map(|i| &comms[*i]), &qs, &evals, bp, &mut s1, &mut r1));
+                    out.obs1(&format!("deser_batch_check.{}", tag), "S", decision(&d));
+                } else { out.obs1(&format!("deser_batch_check.{}", tag), "S", "deserialization-failed".into()); }
+            }
+        }
         // verification with deserialized key, commitments and proof: same decisions
         if let Some(rec) = recs.iter().find(|r| r.kind == "single" && r.proof.is_some()) {
             use ark_serialize::{Compress, Validate};
